@@ -486,8 +486,7 @@ func main() {
 	}
 	stats, err := drv.ExploreAll(factory, ps, t0.Add(budget))
 	if err != nil {
-		fmt.Println("INFRA:", err)
-		os.Exit(2)
+		drv.InfraExit("C06", factory, stats, err, 20000)
 	}
 	out := drv.Classify("C06", factory, stats, 20000)
 	// auxiliary free-running race pass (a different, sampling technique; reported apart)
